@@ -47,16 +47,16 @@ type Sink interface {
 // ---- worker side ----
 
 type event struct {
-	E      string            `json:"e"`
-	FP     string            `json:"fp,omitempty"`
-	NT     bool              `json:"nt,omitempty"`
-	Sample json.RawMessage   `json:"sample,omitempty"`
-	Stats  map[string]int64  `json:"stats,omitempty"`
+	E      string              `json:"e"`
+	FP     string              `json:"fp,omitempty"`
+	NT     bool                `json:"nt,omitempty"`
+	Sample json.RawMessage     `json:"sample,omitempty"`
+	Stats  map[string]int64    `json:"stats,omitempty"`
 	Seen   map[string][]string `json:"seen,omitempty"`
-	Class  string            `json:"class,omitempty"`
-	Msg    string            `json:"msg,omitempty"`
-	Wit    json.RawMessage   `json:"wit,omitempty"`
-	Next   int               `json:"next,omitempty"`
+	Class  string              `json:"class,omitempty"`
+	Msg    string              `json:"msg,omitempty"`
+	Wit    json.RawMessage     `json:"wit,omitempty"`
+	Next   int                 `json:"next,omitempty"`
 }
 
 type workerSink struct {
@@ -167,10 +167,10 @@ func (w *workerSink) Inconclusive(msg string) {
 // restart asks the supervisor for a fresh process continuing at case next (used after a
 // monitor found persistent damage: a leaked or runaway goroutine would spoil later
 // measurements).
-func (w *workerSink) restart(next int) {
+func (w *workerSink) restart(next int, reason string) {
 	w.mu.Lock()
 	w.flushLocked()
-	w.emit(event{E: "restart", Next: next})
+	w.emit(event{E: "restart", Next: next, Msg: reason})
 	w.mu.Unlock()
 	os.Stdout.Sync()
 	os.Exit(0)
@@ -220,7 +220,7 @@ func workerMain(args []string) {
 	w := &workerSink{out: bufio.NewWriterSize(os.Stdout, 1<<16), walPath: walFile(p.Scratch, p.Batch),
 		stats: map[string]int64{}, seen: map[string]map[string]bool{}}
 	fx.Quiet()
-	runSurface(w, p, func(next int) { w.restart(next) })
+	runSurface(w, p, func(next int, reason string) { w.restart(next, reason) })
 	w.done()
 	os.Stdout.Sync()
 	os.Exit(0)
@@ -269,7 +269,7 @@ const workerSilenceWatchdog = 240 * time.Second
 
 func supervise(c *run.Ctx, p plan) {
 	from := p.From
-	crashes := 0
+	deadRestarts := 0
 	for from < p.To {
 		_ = os.Remove(walFile(p.Scratch, p.Batch))
 		errPath := filepath.Join(p.Scratch, fmt.Sprintf("c15-worker-%d-%s-%d.stderr", p.Batch, p.Surface, from))
@@ -351,6 +351,9 @@ func supervise(c *run.Ctx, p plan) {
 					c.Inconclusive(e.Msg)
 				case "restart":
 					next = e.Next
+					if e.Msg == "dead" {
+						deadRestarts++
+					}
 				case "done":
 					done = true
 				}
@@ -370,6 +373,12 @@ func supervise(c *run.Ctx, p plan) {
 		if next >= 0 {
 			c.Stat("worker_restarts_requested", 1)
 			from = next
+			if deadRestarts > 3 {
+				// every fresh node ends up unresponsive (reported each time): the rest of the list would only repeat it
+				c.Note(fmt.Sprintf("surface %s abandoned at case %d after %d nodes became unresponsive", p.Surface, from, deadRestarts))
+				c.Stat("surfaces_abandoned", 1)
+				return
+			}
 			continue
 		}
 		// the worker died
@@ -392,14 +401,23 @@ func supervise(c *run.Ctx, p plan) {
 		}
 		switch {
 		case hung:
+			deadRestarts++
 			c.Violation("C15/node-unresponsive:worker-silent", fmt.Sprintf("worker of surface %s produced no event for %v", p.Surface, workerSilenceWatchdog), wit)
 		case sig != "":
-			crashes++
 			c.Stat("child_crashes", 1)
 			c.Seen("crash_classes", sig)
 			c.Violation("C15/"+sig, "node process died while processing hostile input on surface "+p.Surface+": "+sig, wit)
+		case killedBySignal(cmd, syscall.SIGKILL):
+			// no message of the Go runtime: the kernel (out-of-memory killer) ended the process
+			c.Stat("child_crashes", 1)
+			c.Violation("C15/crash:killed-by-SIGKILL-without-runtime-message", "node process was killed from outside while processing hostile input on surface "+p.Surface+" (the kernel's out-of-memory killer is the usual sender)", wit)
 		default:
 			c.Inconclusive(fmt.Sprintf("worker of surface %s died without a panic message (state %v): %s", p.Surface, cmd.ProcessState, tailOf(stderr, 600)))
+		}
+		if deadRestarts > 3 {
+			c.Note(fmt.Sprintf("surface %s abandoned after %d silent / unresponsive worker processes", p.Surface, deadRestarts))
+			c.Stat("surfaces_abandoned", 1)
+			return
 		}
 		if !haveWal {
 			c.Inconclusive("worker of surface " + p.Surface + " died before its first case")
@@ -407,6 +425,14 @@ func supervise(c *run.Ctx, p plan) {
 		}
 		from = rec.Idx + 1
 	}
+}
+
+func killedBySignal(cmd *exec.Cmd, sig syscall.Signal) bool {
+	if cmd.ProcessState == nil {
+		return false
+	}
+	ws, ok := cmd.ProcessState.Sys().(syscall.WaitStatus)
+	return ok && ws.Signaled() && ws.Signal() == sig
 }
 
 func tailOf(s string, n int) string {
@@ -472,7 +498,7 @@ func replay(c *run.Ctx, rawWit json.RawMessage) {
 		return
 	}
 	p := plan{Tier: "quick", Seed: c.Seed, Scratch: c.Scratch, NBatches: 1}
-	runCases(c, p, cases, func(int) {})
+	runCases(c, p, cases, func(int, string) {})
 }
 
 func main() {
